@@ -12,7 +12,7 @@ BUDGET = {'quick': 9600, 'thorough': 400000}
 CAP_S = {'quick': 150, 'thorough': 3000}
 RULE = ('case = (hint node from the shared grammar, conforming object built by construction from the hint, configuration, '
         'draw list); every draw x 7 entry points (is_bearable, die_if_unbearable, TypeHint.is_bearable/.die_if_unbearable, '
-        'decorated parameter, decorated return, identity function) must accept. non-trivial = hint depth >= 2 or the hint has '
+        'decorated parameter, decorated return, identity function) plus 8 signature shapes (the hint on a keyword-only, positional-only, defaulted, *args or **kwargs parameter next to unhinted / object / Any parameters that receive a junk object by position or keyword) must accept. non-trivial = hint depth >= 2 or the hint has '
         'a sampled container level with a non-empty container in the object, a union or a literal; distinct by canonical JSON')
 ASSUMPTIONS = [
     'reference semantics of vlib/hints.py (written from the PEPs) decides membership; objects failing it are discarded and counted',
